@@ -240,6 +240,8 @@ def setup_worker():
     _remember_originals()
     _install_send_tap()
     YP = sched.YieldPoints([(_ORIG["send_msg"], "self.dul.send_pdu(pdata)", 0),
+                            # (every further occurrence of that statement, should the method have more than one sending loop)
+                            (_ORIG["send_msg"], "self.dul.send_pdu(pdata)", 1), (_ORIG["send_msg"], "self.dul.send_pdu(pdata)", 2),
                             # between building the message from the primitive and encoding its fragments (multi-association cases)
                             (_ORIG["send_msg"], "dimse_msg.context_id = context_id", 0),
                             (_ORIG["send_msg"], "with self._send_lock:", 0)], seed=0, p_yield=0.9, max_delay=0.004)
@@ -540,6 +542,8 @@ def make_scp_handlers(case, log, box):
                 ds = rsp_ds() or Dataset()
                 ds.AffectedSOPInstanceUID = INSTANCE
                 return status, ds
+            if name == "N-EVENT-REPORT" and case.get("ner_rsp") == "none":
+                return status, None        # a command-only response racing the data-set fragments of the C-FIND responses
             return status, rsp_ds()
         return h
 
@@ -1567,7 +1571,7 @@ def gen_cases(tier, seed):
     for i in range(8 if quick else 200):
         cases.append(dict(kind="multi-assoc", k=rng.choice([3, 4, 6]), per=6, yseed=rng.getrandbits(30), i=i))
     for i in range(QUICK_CONCURRENT if quick else 240):
-        cases.append(dict(kind="concurrent", req_max=rng.choice([32, 48, 64, 128, 256]), n_pending=rng.choice([4, 6, 10]),
+        cases.append(dict(kind="concurrent", ner_rsp=("none" if i % 2 else "nonempty"), req_max=rng.choice([32, 48, 64, 128, 256]), n_pending=rng.choice([4, 6, 10]),
                           n_events=rng.choice([1, 2, 4, 6]), rsp_size=rng.choice([300, 1000, 3000]), ds_size=rng.choice([0, 300]),
                           yields=(i % 6 != 0), yseed=rng.randrange(1 << 30), gap=rng.choice([0, 0, 0.002, 0.01]), acc_max=16382))
     return cases
